@@ -33,7 +33,11 @@ MAPPINGS = {
 FIELDS = ['group', 'q']
 
 FOREIGN_NAMES = {'cluster_metrics.tsv': ('m', '\t'), 'extra.csv': ('e', ','), 'error.tsv': ('r', '\t'),
-                 'cluster_info.tsv': ('i', '\t')}
+                 'cluster_info.tsv': ('i', '\t'),
+                 # the separator is a property of the content, not of the extension (the legacy
+                 # cluster_groups.csv of phy is tab-separated)
+                 'cluster_groups.csv': ('g', '\t'), 'commas.tsv': ('c', ',')}
+SEPARATOR_NAMES = ['cluster_groups.csv', 'commas.tsv']
 
 
 def foreign_body(name, kind):
@@ -68,11 +72,13 @@ def alphabet(tier):
             evs.append(('save_meta', f, mname))
     kinds = ['valid', 'valid_gap_first', 'header', 'empty', 'ragged', 'noid', 'badutf8'] \
         if tier == 'thorough' else ['valid', 'valid_gap_first', 'empty', 'badutf8', 'ragged']
-    names = list(FOREIGN_NAMES) if tier == 'thorough' else ['cluster_metrics.tsv', 'extra.csv',
-                                                           'cluster_info.tsv']
+    names = [n for n in FOREIGN_NAMES if n not in SEPARATOR_NAMES] if tier == 'thorough' else [
+        'cluster_metrics.tsv', 'extra.csv', 'cluster_info.tsv']
     for n in names:
         for k in kinds:
             evs.append(('foreign', n, k))
+    for n in SEPARATOR_NAMES:
+        evs.append(('foreign', n, 'valid'))
     evs += [('subset', 0), ('subset', 1), ('close',), ('reload',)]
     return evs
 
@@ -110,6 +116,9 @@ class World(object):
         self.tr = dsgen.make_dataset(self.dir, base['spec'])
         self.model = None
         self.ref = Ref([int(x) for x in self.tr['spike_clusters']])
+        for name, t in (base['spec'].get('tsv') or {}).items():
+            # metadata the dataset comes with: the state "last saved" before the history starts
+            self.ref.fields[t['field']] = dict(t['values'])
         self.loaded_digest = None
         self.load()
 
@@ -296,9 +305,22 @@ def make_bases(ctx):
                 'spike_templates': [0, 1, 2, 0, 0, 1, 0, 2], 'raw': raw, 'features': 'absent',
                 'tfeatures': 'absent', 'whitening_inv': True, 'fill': ctx.seed, 'naming': naming,
                 'channel_map': 'perm' if raw else 'identity'}
+        if name == 'noraw':
+            # this dataset comes with a metadata file whose content equals one of the mappings of
+            # the alphabet (saving another mapping and then this one again must rewrite the file)
+            spec['tsv'] = {'cluster_group.tsv': {'field': 'group', 'values': dict(MAPPINGS['labels'])}}
         if name == 'noclusters':
             spec['spike_clusters'] = 'absent'     # load_model creates the cluster file itself
         _BASES.append({'name': name, 'spec': spec})
+
+
+def prepare(tier, seed):
+    class _C(object):
+        pass
+    c = _C()
+    c.thorough, c.seed, c.tier = tier == 'thorough', seed, tier
+    make_bases(c)
+    _CFG['tier'] = tier
 
 
 def expand(key, hist, acc):
